@@ -509,10 +509,10 @@ impl Engine for StreamEngine {
         case_strategy()
     }
     fn quick_cases(&self) -> usize {
-        3000
+        30_000
     }
     fn thorough_cases(&self) -> usize {
-        60_000
+        1_000_000
     }
     fn run(&self, case: &Self::Case) -> Outcome {
         crate::sim::install_panic_hook();
